@@ -452,7 +452,11 @@ func caseSam(c *Case) (string, []samRec) {
 			recs = append(recs, samRec{name: f[0], flag: atoi(f[1]), pos: atoi(f[2]), cigar: f[3], seq: f[4]})
 		}
 	}
-	return samText(c.Get("rname"), atoi(c.Get("reflen")), recs, true), recs
+	txt := samText(c.Get("rname"), atoi(c.Get("reflen")), recs, true)
+	if len(txt)%5 == 0 { // one file in five has no newline after its last record
+		txt = strings.TrimSuffix(txt, "\n")
+	}
+	return txt, recs
 }
 
 // blockNames: query names in output order (as the model's grouping)
